@@ -107,6 +107,7 @@ func execCapScript(script string) string {
 	var inflight []flight
 	var weak *capnp.WeakClient
 	var staleT *capnp.Client   // the T handle released most recently
+	var staleP *capnp.Client   // the P handle released most recently
 	var parked []chan struct{} // Release / Fulfill calls that did not return yet
 	// settle waits for background operations that can finish to finish
 	settle := func() {
@@ -228,12 +229,46 @@ func execCapScript(script string) string {
 			if atomic.LoadInt32(&ht.entered)+atomic.LoadInt32(&hp.entered) != before {
 				res += "!call-through-released-handle-delivered"
 			}
+		case "staleP":
+			// … the same for a released handle of the promised client, whatever the promise resolved to (a capability,
+			// null, an error): operations on it return, none is delivered
+			if staleP == nil {
+				res = "skip"
+				break
+			}
+			before := atomic.LoadInt32(&ht.entered) + atomic.LoadInt32(&hp.entered)
+			done := make(chan string, 1)
+			sp := staleP
+			go func() {
+				r := callResult(sp)
+				if sp.IsValid() {
+					r += "!released-handle-still-valid"
+				}
+				done <- r
+			}()
+			select {
+			case r := <-done:
+				switch {
+				case strings.Contains(r, "!"):
+					res = r
+				case r == "released" || r == "null":
+					res = "dead"
+				default:
+					res = r + "!call-through-released-handle"
+				}
+			case <-time.After(2 * time.Second):
+				res = "!operation-on-released-handle-blocked"
+			}
+			if atomic.LoadInt32(&ht.entered)+atomic.LoadInt32(&hp.entered) != before {
+				res += "!call-through-released-handle-delivered"
+			}
 		case "relP":
 			if len(poolP) == 0 {
 				res = "skip"
 				break
 			}
 			c := pop(&poolP)
+			staleP = c
 			res = bg(c.Release)
 		case "beginT":
 			if len(poolT) == 0 {
@@ -493,7 +528,7 @@ func execCap(t []string) string {
 	return "bad-op"
 }
 
-var capOps = []string{"addT", "addP", "relT", "relP", "callT", "callP", "weakT", "fulfill", "fulfillNil", "fulfillSelf", "staleT",
+var capOps = []string{"addT", "addP", "relT", "relP", "callT", "callP", "weakT", "fulfill", "fulfillNil", "fulfillSelf", "staleT", "staleP",
 	"beginT", "beginP", "end", "end", "mkweakT", "upT"}
 
 // execCapChain: a two-level promise chain, fulfilled inside-out with no operation on the middle client in
@@ -540,6 +575,10 @@ func genC10(rec *lib.Rec, r *lib.Rng, thorough bool) {
 			"addP,fulfillSelf,callP,addP,relP,relP,relP,relT",
 			"beginP,fulfillSelf,end,callP,relP,relT",
 			"fulfillSelf,relP,relT",
+			"fulfillNil,relP,staleP,relT",
+			"addP,fulfillNil,relP,staleP,callP,relP,staleP",
+			"addP,fulfill,relP,staleP,relP,staleP,relT",
+			"addP,relP,staleP,fulfillSelf,relP,staleP",
 		} {
 			rec.Op("M", "cap script "+sc, true)
 		}
